@@ -20,7 +20,7 @@ External pieces, all parameters (`Env`):
 
 An unparseable URL makes `normalize_url(…, unsplit=False)` return the *string* it was given
 (`url.lower()` here); `fingerprint_url` returns that string as it is, whatever `unsplit`
-(`if not isinstance(splitted, SplitResult): return splitted`, FX-C07-FPTOTAL; before that fix the
+(`if not isinstance(splitted, SplitResult): return splitted`, FX-C07-c806a8b; before that fix the
 string was unpacked into five names: `ValueError`, or `AttributeError` on five characters).
 The errors that remain are those of the accessors (`netlocAcc`, `walkHost`): values of the model.
 -/
